@@ -685,7 +685,7 @@ func tailStr(s string, n int) string {
 }
 
 func runC20(c *fw.Ctx) {
-	rounds := c.Pick(16, 120)
+	rounds := c.Pick(16, 1200)
 	type wl struct {
 		name string
 		f    func(k *fw.K, round int)
@@ -706,7 +706,7 @@ func runC20(c *fw.Ctx) {
 			w.f(k, i)
 		})
 	}
-	cold := c.Pick(3, 12)
+	cold := c.Pick(3, 60)
 	c.Cases(cold, func(i int) string { return fmt.Sprintf("cold-start|round=%d", i) }, func(i int, k *fw.K) {
 		k.Nontrivial("")
 		c20Cold(k, i)
